@@ -87,6 +87,8 @@ def flat(v):
         lv = {lvl_of(x) for x in v.attrs.values()}
         if len(lv) > 1 and max(lv) >= RAW:
             COLLAPSED.append(getattr(v, "cls", None))
+            # the marker travels with the provenance of whatever is computed from the collapsed value
+            return PV(lvl_of(v), prov_of(v) | {("$collapsed", 0, str(getattr(v, "cls", "?")), "")}, vs=vs_of(v))
     return PV(lvl_of(v), prov_of(v), vs=vs_of(v))
 
 
@@ -209,13 +211,16 @@ class Pattern(Interp):
         if kind == "if condition" and self._zero_guard_skips_noops(n, ctx):
             self.exempted[(ctx.qname, norm(n)[:80])] = "the branch only skips updates that add a multiple of the tested quantity (zero there): both ways compute the same values"
             return
-        for (q, line, text, rel) in (v.prov or {(ctx.qname, getattr(n, "lineno", 0), norm(n)[:160],
-                                                  ctx.func.module.relpath if ctx.func else "?")}):
+        through_object = any(p_[0] == "$collapsed" for p_ in v.prov)
+        real = {p_ for p_ in v.prov if p_[0] != "$collapsed"}
+        for (q, line, text, rel) in (real or {(ctx.qname, getattr(n, "lineno", 0), norm(n)[:160],
+                                               ctx.func.module.relpath if ctx.func else "?")}):
             if q in self.EXEMPT_FUNCS:
                 self.exempted[(q, text)] = self.EXEMPT_FUNCS[q]
                 continue
             k = (q, text)
-            d = self.violations.setdefault(k, {"function": q, "line": line, "construct": text, "file": rel, "sinks": []})
+            d = self.violations.setdefault(k, {"function": q, "line": line, "construct": text, "file": rel, "sinks": [], "approx": True})
+            d["approx"] = d["approx"] and through_object          # over-approximate only if every way it reaches a decision went through a collapsed object
             s = "%s in %s: %s" % (kind, ctx.qname, norm(n)[:80])
             if s not in d["sinks"] and len(d["sinks"]) < 6:
                 d["sinks"].append(s)
